@@ -112,13 +112,13 @@ type c12Item struct {
 }
 
 type c12Case struct {
-	Lockstep bool       `json:"lockstep"`
-	Mux      bool       `json:"mux"`
-	MaxLen   int64      `json:"maxlen"` // RelayOption.MaxMessageLength (0 = 1 MiB); every client frame is shorter
+	Lockstep bool  `json:"lockstep"`
+	Mux      bool  `json:"mux"`
+	MaxLen   int64 `json:"maxlen"` // RelayOption.MaxMessageLength (0 = 1 MiB); every client frame is shorter
 	// Opts: 0 = SendTimeout 30 s, ping every minute; 1 = SendTimeout 0 (no write deadline), ping every minute;
 	// 2 = SendTimeout 0 and PingDuration 0 (both switched off); 3 = SendTimeout 30 s, PingDuration 0
-	Opts int `json:"opts"`
-	Frames   []c12Frame `json:"frames"`
+	Opts   int        `json:"opts"`
+	Frames []c12Frame `json:"frames"`
 	// observation
 	RanLockstep bool      `json:"ran_lockstep"` // lock-step requested and no wait timed out
 	Recv        []c12Recv `json:"recv"`
